@@ -148,7 +148,7 @@ CHECKS["C14"] = {
               "upgrade and the peer vanishing or staying connected, against a real Server: the server end of the connection must be closed, no goroutine may still serve "
               "it after the release bound, neither Established nor Finished may fire, and a refused client must see the end of its connection. Over TCP, TCP+TLS and the in-process transport; "
               "peers that half-close, stay, stay silent past the deadline, reset, or vanish right after their last envelope."),
-    "note": "Server runs over the real TCP transport on in-memory connections (closure observed exactly on the server end); serving goroutines found by stack census.",
+    "note": "Server runs over the real TCP transport on in-memory connections (closure observed exactly on the server end); serving goroutines found by stack census. A real-time watchdog outside the bubbles turns a library goroutine that spins or waits for a lock for ever (which stops a bubble's clock) into a violation with the stack frame in its signature instead of a timeout.",
     "technique": "fault enumeration over model-classified failing scripts (exhaustive to a depth bound) + rapid, in virtual time",
     "rule": ("cases as in C07 under a real Server, each with the peer ending by EOF (vanishing) or staying connected (wait), rapid adds silence. Judged only when the model "
              "says the handshake failed. Non-trivial: >=2 client envelopes, or a cause other than a first-envelope protocol violation. Distinct by SHA-1 of the case."),
@@ -265,7 +265,8 @@ CHECKS["C12"] = {
               "transient timeout, zero-length timeouts, cuts at every offset, resets; random plans on larger streams (up to 20 envelopes of up to 64 KiB, back-pressure with tiny pipes); "
               "with TLS: fragmentation of the raw stream, stalls and cuts. Oracle: what is received is a duplicate-free, in-order sub-sequence of what was attempted, each element equal to "
               "the one sent; every envelope whose Send returned nil arrives when nothing was cut (also one reported sent after an earlier Send failed); a cut in the middle of a write makes a Send fail. "
-              "Sends may be given up on their context (cancelled or timed out, per envelope) while the receiver stalls for seconds behind a pipe smaller than a frame."),
+              "Sends may be given up on their context (cancelled or timed out, per envelope) while the receiver stalls for seconds behind a pipe smaller than a frame, or be issued with a context that is already dead (refused: such an envelope must never arrive, also not with a later one); "
+              "the receiver may ask with short deadlines and ask again (an envelope is lost only if the receiver kept asking)."),
     "note": "Short writes / write timeouts are not injected under TLS (crypto/tls makes any write error permanent, so no retry semantics apply there).",
     "technique": "fault enumeration (exhaustive split points / short-write lengths / cut offsets for small streams) + rapid fault plans, sent-vs-received sequence oracle, in virtual time",
     "rule": ("case = (stream, write fault plan on the sender's connection, read fault plan on the receiver's, global read chunk, coalescing, pipe capacity, TLS). Non-trivial: a fault fired or a frame "
@@ -285,10 +286,12 @@ CHECKS["C16"] = {
               "in-limit frames followed by each boundary size) x fragmentation (coalesced, concurrent writer with a 4 KiB pipe, read chunks of 1, 7, L-1, L, L+1 bytes), plus rapid streams of up to 12 "
               "frames; the limit is set through the hook constructor and through the real loopback TCP listener (propagation). Oracle per Receive: bytes taken from the connection during the call "
               "<= L; a frame > 2L is never returned; a frame <= L whose predecessors were accepted is returned intact. Frames in (L, 2L] may go either way. Refused frames (well-formed JSON that is no "
-              "valid envelope: an unknown event, or members that add up to no kind) of every size up to L are interleaved: each must be answered with an error and costs later frames nothing."),
+              "valid envelope: an unknown event, or members that add up to no kind) of every size up to L are interleaved: each must be answered with an error and costs later frames nothing. "
+              "A frame of L/2 ... 10L also arrives in pieces (1, L/2, L-1, L, L+1 bytes, 1-24 of them, and drawn piece lists) while the receiver gives up on a 100 ms context between the pieces and asks again "
+              "(virtual time): whatever the transport does after a given-up receive, a frame > 2L is never returned, one Receive takes at most L bytes, and what is returned was sent."),
     "note": "The unit is the frame (JSON text plus the encoder's newline). Bytes consumed are counted on the in-memory connection; not measured for the loopback listener cases.",
     "technique": "boundary-value enumeration + rapid streams with a per-call consumption counter on the injected connection",
-    "rule": ("case = (limit, frame sizes, read chunk, coalesced?, via hook|listener). Non-trivial: a frame > L occurs, or >=2 coalesced frames. Distinct by SHA-1 of the case. Default 8 MiB limit only in the thorough tier."),
+    "rule": ("case = (limit, frame sizes, read chunk, coalesced?, via hook|listener). Non-trivial: a frame > L occurs, or >=2 coalesced frames; for the given-up cases: a frame > L and at least one receive that ended on its context with part of the frame taken. Distinct by SHA-1 of the case. Default 8 MiB limit only in the thorough tier."),
     "assumptions": STD_ASSUMPTIONS + ["the real TCP transport runs over the harness's in-memory net.Conn; listener cases use loopback TCP"],
     "exhaustive_jobs": ["TestC16Sweep", "TestC16GiveUpSweep"],
     "jobs": [
@@ -350,7 +353,9 @@ CHECKS["C05"] = {
               "the duplicate-id error, and the multiset of responses surfaced on the response stream equals the model's (nothing lost, nothing delivered to an unrelated caller). "
               "Plus every permutation of the responses of up to 4/5 concurrent calls sent as one burst, with an unknown id, a duplicate and an omission, followed by id reuse. "
               "Plus stalled-peer histories (tiny buffers, a peer that stops reading): requests whose send itself fails on its deadline, then reuse of those ids and late responses for them "
-              "(enumerated in TestC05SendFails and drawn as a prefix in TestC05); once a failed write has ended the session the rest of the history is not judged."),
+              "(enumerated in TestC05SendFails and drawn as a prefix in TestC05); once a failed write has ended the session the rest of the history is not judged. "
+              "Steps also include a response racing with the cancellation of its request (either outcome, never a stuck goroutine) and two calls with one id started in the same instant "
+              "(exactly one owns the id and gets the response, the other is refused)."),
     "note": "Staging uses synctest.Wait after every step, so races between a response and a cancellation at the same instant are not generated (as in DESIGN.md).",
     "technique": "stateful model-based property testing (rapid) + exhaustive permutations against a pending-command table model, in virtual time",
     "rule": "case = (role, transport, step list). Non-trivial: >=2 calls in flight with a burst, or any response that matches no pending call (unknown / duplicate / late). Distinct by SHA-1 of the case.",
@@ -367,7 +372,7 @@ CHECKS["C05"] = {
 CHECKS["C04"] = {
     "level": "exploration",
     "claim": ("Generated workloads (four kinds, payloads up to 64 KiB, both directions at once, 1-8 sender goroutines per direction, channel buffers 0/1/2/8/64, in-process transport buffers 0/1/4, "
-              "tiny pipes for back-pressure, consumers reading the four streams or an EnvelopeMux, drawn consumer delays) over the in-process, TCP and TCP+TLS transports in virtual time and over "
+              "tiny pipes for back-pressure, consumers reading the four streams or an EnvelopeMux, drawn consumer delays, and in a third of the TCP cases a consumer that pauses for 5.5-16 s of virtual time - longer than one to three write polls - every few envelopes while one sender per direction keeps sending) over the in-process, TCP and TCP+TLS transports in virtual time and over "
               "TCP, TCP+TLS, ws and wss loopback sockets in real time: the multiset of delivered envelopes equals the multiset of envelopes whose Send* returned nil, each delivered value equals the "
               "sent one, per (sender goroutine, kind) the ids arrive in sending order, each kind arrives on its own stream, and no send fails while the session stays established."),
     "note": "Schedules are sampled (real Go scheduler, GOMAXPROCS varied per shard); consumers never send, except that in a third of the cases a client goroutine issues ProcessCommand calls it cancels after a few yields and the server's consumer answers them (once or twice): noise next to the judged traffic, not judged itself (C05 judges the pending-command table). Real-socket cases wait for all successfully sent envelopes, then 200 ms of silence; a session that drops is inconclusive, not a violation.",
